@@ -9,6 +9,8 @@ ALL = [("G06_datachecker", "tools.tr.tr_datachecker", "write"),
        ("G02_registry", "tools.tr.tr_wire", "write"),
        ("G02_oldstyle", "tools.tr.tr_oldstyle", "write"),
        ("G01_handlers", "tools.tr.tr_handlers", "write"),
+       ("G01_auth", "tools.tr.tr_auth", "write"),
+       ("G03_recv", "tools.tr.tr_recv", "write"),
        ("G09_rules", "tools.tr.tr_reclaim", "write"),
        ("G13_lan", "tools.tr.tr_lan", "write"),
        ("G15_consts", "tools.tr.tr_dht_consts", "write"),
